@@ -131,7 +131,12 @@ impl Core {
             .get(target)
             .map(|cached| cached.closest_responding_nodes.clone())
             .filter(|closest_nodes| {
-                !closest_nodes.is_empty() && closest_nodes.iter().any(|n| n.valid_token())
+                // Nodes cached from a FIND_NODE query carry no tokens, they can't be
+                // used to store anything.
+                !closest_nodes.is_empty()
+                    && closest_nodes
+                        .iter()
+                        .any(|n| n.token().is_some() && n.valid_token())
             })
     }
 
